@@ -311,3 +311,70 @@ func vtsBytes() []byte {
 	}
 	return buf.Bytes()
 }
+
+// C06 H4: one display row -> runs: text only between start box and end box, parity-failed cells (0) contribute
+// nothing, runs split at colour codes, rows of a page in row order.  BV8; 5 / 7 symbolic cells.
+func VH_C06_RowToRuns() {
+	n := vbound("cells", 5, 7)
+	row := make([]byte, 40)
+	for i := range row {
+		row[i] = ' '
+	}
+	for i := 0; i < n; i++ {
+		row[2+i] = nondetByteIn("ab \x0b\x0a\x03\x00")
+	}
+	cd := newTeletextCharacterDecoder()
+	cd.updateCharset(astikit.UInt8Ptr(0), false)
+	it := &Item{}
+	vreach("pre")
+	parseTeletextRow(it, cd, nil, row)
+	// spec: letters count only while the box is open
+	want := ""
+	open := false
+	for i := 0; i < 40; i++ {
+		switch row[i] {
+		case 0x0b:
+			open = true
+		case 0x0a:
+			open = false
+		case 'a', 'b':
+			if open {
+				want += string([]byte{row[i]})
+			}
+		}
+	}
+	got := ""
+	for _, l := range it.Lines {
+		for _, li := range l.Items {
+			for i := 0; i < len(li.Text); i++ {
+				if li.Text[i] != ' ' {
+					got += string([]byte{li.Text[i]})
+				}
+			}
+		}
+	}
+	vassert(len(it.Lines) <= 1, "C06 row: at most one line per row")
+	vassert(got == want, "C06 row: exactly the boxed text of the row, parity-failed and unboxed cells contribute nothing")
+	vreach("end")
+}
+
+// C06 H3: national character sets: for every charset code of the page header the decoder's G0 differs from the Latin G0
+// at the 13 national positions only, and the shared tables are not modified (also serves C20).
+func VH_C06_Charset() {
+	code := uint8(nondetInt64(0, 7))
+	code = uint8(vconcrete(int64(code)))
+	cd := newTeletextCharacterDecoder()
+	vfreeze()
+	cd.updateCharset(astikit.UInt8Ptr(code), false)
+	nat := map[int]bool{}
+	for _, p := range teletextNationalSubsetCharactersPositionInG0 {
+		nat[int(p)] = true
+	}
+	for i := 0; i < 96; i++ {
+		if !nat[i] {
+			vassert(string(cd.c[i]) == string(teletextCharsetG0Latin[i]), "C06 charset: outside the 13 national positions the G0 set is the Latin one")
+		}
+	}
+	vassert(string(cd.decode(0x41)) == "A" && len(cd.decode(0x10)) == 0, "C06 charset: letters decode, control codes give no text")
+	vreach("end")
+}
